@@ -25,16 +25,24 @@ def run(ctx):
     for b in F.bodies.values():
         for bi, t in b.all_calls():
             if call_matches(t, lib.ATOMIC_STORE + lib.ATOMIC_RMW) and ({'.ValueTable.filled', '.ValueTable.last_removed'} & lib.receiver_fields(b, t, 0)):
-                writers.add(b.path)
+                writers.add(lib.strip_closures(b.path))
     allowed = {'table::ValueTable::next_free', 'table::ValueTable::claim_entries', 'table::ValueTable::clear_slot', 'table::ValueTable::refresh_metadata'}
     ctx.ob('1a slot-counter-writers', 'K4-confinement', ','.join(sorted(writers)), 'filled / last_removed are stored only by next_free, claim_entries, clear_slot (and refresh_metadata, which reloads them from disk)',
            writers <= allowed and len(writers) >= 3, str(sorted(writers)))
     for fn in sorted(writers - {'table::ValueTable::refresh_metadata'}):
-        b = F.body(fn)
-        stores = [bi for bi, t in b.calls() if call_matches(t, lib.ATOMIC_STORE) and ({'.ValueTable.filled', '.ValueTable.last_removed'} & lib.receiver_fields(b, t, 0))]
-        dh = [bi for bi, t in b.calls() if call_matches(t, lib.ATOMIC_STORE) and '.ValueTable.dirty_header' in lib.receiver_fields(b, t, 0) and len(t['a']) > 1 and t['a'][1].get('i') == 1]
-        for i, s in enumerate(stores):
-            lib.must_pass(ctx, '1b header-marked-dirty %s #%d' % (fn, i), b, dh, 'after filled / last_removed changed, every success path sets dirty_header', sources=[s])
+        i = 0
+        for b in lib.bodies_of(F, fn):
+            stores = [bi for bi, t in b.calls() if call_matches(t, lib.ATOMIC_STORE) and ({'.ValueTable.filled', '.ValueTable.last_removed'} & lib.receiver_fields(b, t, 0))]
+            src_body = b
+            if stores and '{closure' in b.path:
+                # the stores are made by a closure (iterator chain): the header is marked after the call the closure is handed to
+                uses = lib.closure_use_sites(F, b)
+                src_body = uses[0][0] if uses else b
+                stores = [u[1] for u in uses] if uses else stores
+            dh = [bi for bi, t in src_body.calls() if call_matches(t, lib.ATOMIC_STORE) and '.ValueTable.dirty_header' in lib.receiver_fields(src_body, t, 0) and len(t['a']) > 1 and t['a'][1].get('i') == 1]
+            for s in stores:
+                lib.must_pass(ctx, '1b header-marked-dirty %s #%d' % (fn, i), src_body, dh, 'after filled / last_removed changed, every success path sets dirty_header', sources=[s])
+                i += 1
     pc = ctx.body('db::DbInner::process_commits')
     if pc:
         dr = pc.call_sites("log::LogWriter::<'a>::drain")
